@@ -54,12 +54,15 @@ pub fn scenario_strategy(tier: Tier) -> BoxedStrategy<Scenario> {
         recv_variant,
         proptest::collection::vec(hscript.clone(), 0..=4),
         proptest::collection::vec(prop_oneof![Just(Act::Yield), Just(Act::SendSelf)], 0..=2),
+        // a start-up that takes a while: messages are accepted (and an exit may be requested) while
+        // the actor is still inside pre_start
+        proptest::collection::vec(prop_oneof![3 => Just(Act::Yield), 1 => (0u16..3).prop_map(Act::Sleep), 1 => Just(Act::SendSelf)], 0..=3),
         proptest::collection::vec(proptest::collection::vec(sender_op, 0..=max_ops), 2..=4),
         (exit_op, 0usize..16),
         gen::schedule(max_sched),
     )
-        .prop_map(|(rv, handle, post_start, senders, (exit, exit_delay), schedule)| {
-            let recv = ActorSpec { variant: Some(rv), handle, post_start, ..Default::default() };
+        .prop_map(|(rv, handle, post_start, pre_start, senders, (exit, exit_delay), schedule)| {
+            let recv = ActorSpec { variant: Some(rv), handle, post_start, pre_start, ..Default::default() };
             // a second, passive receiver (target of SendTo(1)) that echoes nothing
             let other = ActorSpec { variant: Some(Variant::Spawn), ..Default::default() };
             let mut clients: Vec<Vec<Op>> = vec![];
